@@ -668,6 +668,8 @@ fn run_local_worker(worker: &Worker, id: usize, parker: Parker, abort_signal: Si
     // Report the panic, if any.
     if let Err(payload) = result {
         let model_id = CURRENT_MODEL_ID.take();
+        #[cfg(feature = "verif-hooks")]
+        crate::verif_hooks::delay(crate::verif_hooks::site::E1);
         pool_manager.register_panic(model_id, payload);
         abort_signal.set();
         pool_manager.activate_all_workers();
